@@ -4,7 +4,10 @@ import (
 	"encoding/json"
 	"fmt"
 	"os"
+	"os/exec"
+	"runtime"
 	"strconv"
+	"strings"
 	"testing"
 	"time"
 
@@ -202,6 +205,22 @@ func TestMinimize(t *testing.T) {
 	var sc Scenario
 	if err := json.Unmarshal(rp.Case, &sc); err != nil {
 		t.Skipf("not a scenario: %v", err)
+	}
+	if sc.Chan > 0 && sc.Chan != runtime.NumCPU() {
+		if os.Getenv("VERIF_PINNED") != "" {
+			fmt.Printf("MINIMIZE: child process sees %d CPUs, the case needs %d; left as is\n", runtime.NumCPU(), sc.Chan)
+			return
+		}
+		// minimise in a child process pinned to the number of CPUs the case was generated for
+		cmd := exec.Command("taskset", append([]string{"-c", fmt.Sprintf("0-%d", sc.Chan-1), os.Args[0]}, os.Args[1:]...)...)
+		cmd.Env = append(os.Environ(), "VERIF_PINNED=1")
+		out, _ := cmd.CombinedOutput()
+		for _, l := range strings.Split(string(out), "\n") {
+			if strings.HasPrefix(l, "MINIMIZE:") {
+				fmt.Println(l)
+			}
+		}
+		return
 	}
 	lastMsg := ""
 	fails := func(c *Scenario) bool {
